@@ -4,6 +4,7 @@
 
 World *g_world;
 extern std::string g_race_prop;
+extern bool g_teardown_only;
 J gen_world(uint64_t seed, const J &opts);
 
 extern "C" {
@@ -1906,7 +1907,9 @@ void run_world(const J &plan, RunCtx &ctx)
 	W.gpend.clear();
 	if (!stopped) {
 		W.oper_busy = true;
+		g_teardown_only = true;
 		rtr_mgr_stop(W.conf);
+		g_teardown_only = false;
 		// A socket of a group that is being stopped can, in its last error callback, restart a group that
 		// rtr_mgr_stop has already passed (observed; a defect outside the listed properties, see DESIGN §17).
 		// The harness must not free the manager under a running thread: stop again until nothing runs.
